@@ -83,6 +83,18 @@ pub fn run_program(
     let mut p = g.program.clone();
     p.batch = batch;
     let (expect, sinks_expected) = eval_program(&p);
+    if expect.too_large {
+        // generator safety net: the program multiplies its data beyond what is worth running
+        return JobOutcome {
+            findings: vec![],
+            stats: Default::default(),
+            end: JobEnd::Returned,
+            panics: vec!["skipped: parallelism of the 2 blocks (not run: the program grows too large)".into()],
+            leaked: 0,
+            wall: Duration::ZERO,
+            log: crate::obs::obs().end_job(),
+        };
+    }
     let traces = TraceSink::new();
     let for_each: Arc<Mutex<HashMap<Var, Vec<Rec>>>> = Default::default();
     let cx = BuildCtx { traces: traces.clone(), for_each: for_each.clone(), probes: true, fault: None, handles: None };
